@@ -5,6 +5,7 @@
    classification of entry points is checked against Gen_VersionTable.v, regenerated from the clang AST. *)
 From Coq Require Import ZArith List Bool String.
 From C15 Require Import Gen_VersionTable Version VersionProofs TableCheck PreFix.
+From C15 Require Arr MultiMap MultiMapProofs Table TableProofs.
 Import ListNotations.
 
 (* A handle (iterator / position) whose version snapshot differs from the current version of the container it was
@@ -123,6 +124,13 @@ Theorem C15_table_matches_model : forallb TableCheck.row_ok version_table = true
 Proof. exact TableCheck.table_matches_model_holds. Qed.
 Print Assumptions C15_table_matches_model.
 
+(* Path-sensitive static pass over the current source of HashSet and TreeSet: no public member function has a normal
+   return that is reached after a write to mCount / mCapacity / mBuckets / mRootNode / mNodeParams of *this without
+   mCrew.IncVersion() on that path. *)
+Theorem C15_no_structural_write_without_bump : version_leaks = [].
+Proof. exact TableCheck.no_structural_write_without_bump_holds. Qed.
+Print Assumptions C15_no_structural_write_without_bump.
+
 (* non-vacuity: a concrete reachable history with a stale, a fresh, an end and a foreign handle *)
 Theorem C15_witness_history :
   let ops := [OInsMany false 10 5; OInsMany true 100 3; OFind false 12 1; OFind false 13 2; OEnd false 3; OFind true 100 4;
@@ -147,3 +155,131 @@ Theorem C15_fixed_tree_increment_safe :
     remove_checks_pass count i' = true -> i' < count.
 Proof. exact PreFix.fixed_tree_increment_safe. Qed.
 Print Assumptions C15_fixed_tree_increment_safe.
+
+(* ================= Array with index iterators (external / internal capacity) and SegmentedArray (Arr.v) =================
+   Arrays keep no version.  For EVERY history: an index iterator of this array is accepted by * / -> exactly when its
+   index is below the CURRENT count (so "invalidated" = the array shrank to or below the index; growing back re-validates
+   it), and it then reads the element at that index. *)
+Theorem C15_arr_iterator_valid_iff_index_below_count :
+  forall s slot ops,
+    Arr.aid (Arr.ahs s slot) = Some 0%nat -> Forall (fun o => Arr.awrites o slot = false) ops ->
+    let s' := Arr.arun s ops in let i := Arr.aidx (Arr.ahs s slot) in
+    ((0 <= i < Arr.cnt s')%Z -> Arr.astep s' (Arr.ADeref slot) = (s', Arr.AAcc (Some (Arr.nthz (Arr.items s') i)))) /\
+    (~ (0 <= i < Arr.cnt s')%Z -> Arr.astep s' (Arr.ADeref slot) = (s', Arr.ARej)).
+Proof. exact Arr.arr_iterator_valid_iff_index_below_count. Qed.
+Print Assumptions C15_arr_iterator_valid_iff_index_below_count.
+
+(* dereferencing the end iterator is rejected (fix 813fdb2) *)
+Theorem C15_arr_end_deref_rejected :
+  forall s slot, Arr.astep (fst (Arr.astep s (Arr.AEnd slot))) (Arr.ADeref slot) = (fst (Arr.astep s (Arr.AEnd slot)), Arr.ARej).
+Proof. exact Arr.arr_end_deref_rejected. Qed.
+Print Assumptions C15_arr_end_deref_rejected.
+
+(* iterator arithmetic leaving [0, count], operator[] out of range, Insert/Remove/RemoveBack out of range, the default
+   iterator, and difference / comparison with an iterator of another array are rejected; a rejected call changes nothing *)
+Theorem C15_arr_advance_out_of_range_rejected :
+  forall s slot d, Arr.aid (Arr.ahs s slot) = Some 0%nat -> ~ (0 <= Arr.aidx (Arr.ahs s slot) + d <= Arr.cnt s)%Z ->
+    Arr.astep s (Arr.AAdvance slot d) = (s, Arr.ARej).
+Proof. exact Arr.arr_advance_out_of_range_rejected. Qed.
+Print Assumptions C15_arr_advance_out_of_range_rejected.
+Theorem C15_arr_index_out_of_range_rejected :
+  forall s i, ~ (0 <= i < Arr.cnt s)%Z -> Arr.astep s (Arr.AIndex i) = (s, Arr.ARej).
+Proof. exact Arr.arr_index_out_of_range_rejected. Qed.
+Print Assumptions C15_arr_index_out_of_range_rejected.
+Theorem C15_arr_bad_range_rejected :
+  forall s i n v,
+    (~ (0 <= i <= Arr.cnt s)%Z -> Arr.astep s (Arr.AInsert i v) = (s, Arr.ARej)) /\
+    (~ (0 <= i /\ 0 <= n /\ i + n <= Arr.cnt s)%Z -> Arr.astep s (Arr.ARemove i n) = (s, Arr.ARej)) /\
+    (~ (0 <= n <= Arr.cnt s)%Z -> Arr.astep s (Arr.ARemoveBack n) = (s, Arr.ARej)).
+Proof. exact Arr.arr_bad_range_rejected. Qed.
+Print Assumptions C15_arr_bad_range_rejected.
+Theorem C15_arr_foreign_comparison_rejected :
+  forall s s1 s2, Arr.aid (Arr.ahs s s1) = Some 0%nat -> Arr.aid (Arr.ahs s s2) <> Some 0%nat ->
+    Arr.astep s (Arr.ADiff s1 s2) = (s, Arr.ARej) /\ Arr.astep s (Arr.ALess s1 s2) = (s, Arr.ARej).
+Proof. exact Arr.arr_foreign_comparison_rejected. Qed.
+Print Assumptions C15_arr_foreign_comparison_rejected.
+Theorem C15_arr_rejected_call_is_identity :
+  forall s o s', Arr.astep s o = (s', Arr.ARej) -> s' = s.
+Proof. exact Arr.arr_rejected_call_is_identity. Qed.
+Print Assumptions C15_arr_rejected_call_is_identity.
+
+(* ================= HashMultiMap (MultiMap.v): key version + valueVersion ================= *)
+(* a key iterator taken before the key set changed is rejected by read, ++, Add(keyIter,..), Remove(keyIter,i),
+   RemoveValues, RemoveKey, ResetKey, MakeIterator *)
+Theorem C15_mm_stale_key_iterator_rejected :
+  forall s i o, MultiMapProofs.key_stale s (MultiMap.mhs s i) -> MultiMap.kp (MultiMap.mhs s i) <> MultiMap.KUnk ->
+    MultiMapProofs.kuses i o -> MultiMap.mstep s o = (s, MultiMap.MRej).
+Proof. exact MultiMapProofs.mm_stale_key_iterator_rejected. Qed.
+Print Assumptions C15_mm_stale_key_iterator_rejected.
+(* a value (pair) iterator is rejected by read, ++, Remove, CheckIterator as soon as EITHER cell moved: valueVersion,
+   or the key version through the key iterator it embeds (InsertKey bumps only that one: the f1f44c5 situation) *)
+Theorem C15_mm_stale_value_iterator_rejected :
+  forall s i o n,
+    MultiMapProofs.value_stale s (MultiMap.mhs s i) \/ MultiMapProofs.key_stale s (MultiMap.mhs s i) ->
+    MultiMap.vp (MultiMap.mhs s i) = MultiMap.VAt n -> MultiMapProofs.vuses i o -> MultiMap.mstep s o = (s, MultiMap.MRej).
+Proof. exact MultiMapProofs.mm_stale_value_iterator_rejected. Qed.
+Print Assumptions C15_mm_stale_value_iterator_rejected.
+(* for every history from the empty multimap: a key iterator whose snapshot is current still points at a present key
+   and reading it is accepted *)
+Theorem C15_mm_fresh_key_iterator_accepted :
+  forall ops i k, let s := MultiMap.mrun MultiMap.minit ops in
+    MultiMap.kcid (MultiMap.mhs s i) = Some 0%nat -> MultiMap.ksnap (MultiMap.mhs s i) = MultiMap.kver s ->
+    MultiMap.kp (MultiMap.mhs s i) = MultiMap.KElem k ->
+    MultiMap.mstep s (MultiMap.MKDeref i) = (s, MultiMap.MAcc (Some k)) /\ In k (map fst (MultiMap.ents s)).
+Proof. exact MultiMapProofs.mm_fresh_key_iterator_accepted. Qed.
+Print Assumptions C15_mm_fresh_key_iterator_accepted.
+(* the set of keys can change only together with the key version; both versions are monotone; rejected = identity *)
+Theorem C15_mm_keys_change_bumps_key_version :
+  forall s o, MultiMap.kver (fst (MultiMap.mstep s o)) = MultiMap.kver s ->
+    map fst (MultiMap.ents (fst (MultiMap.mstep s o))) = map fst (MultiMap.ents s).
+Proof. exact MultiMapProofs.mm_keys_change_bumps_key_version. Qed.
+Print Assumptions C15_mm_keys_change_bumps_key_version.
+Theorem C15_mm_versions_monotone :
+  forall ops s, (MultiMap.kver s <= MultiMap.kver (MultiMap.mrun s ops))%nat /\ (MultiMap.vver s <= MultiMap.vver (MultiMap.mrun s ops))%nat.
+Proof. exact MultiMapProofs.mm_versions_monotone. Qed.
+Print Assumptions C15_mm_versions_monotone.
+Theorem C15_mm_rejected_call_is_identity :
+  forall s o s', MultiMap.mstep s o = (s', MultiMap.MRej) -> s' = s.
+Proof. exact MultiMapProofs.mm_rejected_call_is_identity. Qed.
+Print Assumptions C15_mm_rejected_call_is_identity.
+
+(* ================= DataTable row references and selections (Table.v): changeVersion + removeVersion ================= *)
+Theorem C15_dt_stale_rejected :
+  forall s i o, TableProofs.dt_stale s (Table.ths s i) ->
+    (o = Table.TRead i \/ o = Table.TGetNumber i \/ o = Table.TRemoveRef i \/ exists v, o = Table.TUpdateRef i v) ->
+    Table.tstep s o = (s, Table.TRej).
+Proof. exact TableProofs.dt_stale_rejected. Qed.
+Print Assumptions C15_dt_stale_rejected.
+(* for every history from the empty table: a row reference (also one taken out of a selection) whose removeVersion
+   snapshot is current -- rows may have been added, inserted, items updated since -- refers to a row of the table and
+   reading it is accepted *)
+Theorem C15_dt_fresh_reference_accepted :
+  forall ops i id, let s := Table.trun Table.tinit ops in
+    Table.ttid (Table.ths s i) = Some 0%nat -> Table.tsnap (Table.ths s i) = Table.rver s -> Table.tids (Table.ths s i) = [id] ->
+    exists v, Table.tstep s (Table.TRead i) = (s, Table.TAcc (Some v)) /\ Table.find_id id (Table.rows s) = Some v.
+Proof. exact TableProofs.dt_fresh_reference_accepted. Qed.
+Print Assumptions C15_dt_fresh_reference_accepted.
+Theorem C15_dt_rows_persist :
+  forall s o id, Table.rver (fst (Table.tstep s o)) = Table.rver s -> In id (map fst (Table.rows s)) ->
+    In id (map fst (Table.rows (fst (Table.tstep s o)))).
+Proof. exact TableProofs.dt_rows_persist. Qed.
+Print Assumptions C15_dt_rows_persist.
+Theorem C15_dt_foreign_rejected :
+  forall s i v, Table.ttid (Table.ths s i) <> Some 0%nat ->
+    Table.tstep s (Table.TRemoveRef i) = (s, Table.TRej) /\ Table.tstep s (Table.TUpdateRef i v) = (s, Table.TRej).
+Proof. exact TableProofs.dt_foreign_rejected. Qed.
+Print Assumptions C15_dt_foreign_rejected.
+Theorem C15_dt_out_of_range_rejected :
+  forall s i slot v, (Table.tcount s <= i)%nat ->
+    Table.tstep s (Table.TRef i slot) = (s, Table.TRej) /\ Table.tstep s (Table.TRemoveNum i) = (s, Table.TRej) /\
+    Table.tstep s (Table.TUpdateNum i v) = (s, Table.TRej) /\ Table.tstep s (Table.TInsert (S i) v) = (s, Table.TRej).
+Proof. exact TableProofs.dt_out_of_range_rejected. Qed.
+Print Assumptions C15_dt_out_of_range_rejected.
+Theorem C15_dt_versions_monotone :
+  forall ops s, (Table.cver s <= Table.cver (Table.trun s ops))%nat /\ (Table.rver s <= Table.rver (Table.trun s ops))%nat.
+Proof. exact TableProofs.dt_versions_monotone. Qed.
+Print Assumptions C15_dt_versions_monotone.
+Theorem C15_dt_rejected_call_is_identity :
+  forall s o s', Table.tstep s o = (s', Table.TRej) -> s' = s.
+Proof. exact TableProofs.dt_rejected_call_is_identity. Qed.
+Print Assumptions C15_dt_rejected_call_is_identity.
